@@ -24,6 +24,7 @@ META = {
     'assumptions': ['"as if the attempt had never been made" is checked as: observation after the rejection == observation '
                     'before it, and every later valid step and query behaves per C15'],
 }
+META['bounds'].append('converter updates: optionally a rate named by the code of an unregistered ISO currency first; unit directories compared before / after')
 
 POOL_SYMS = ['awdup', 'dw', 'abdup', 'dup2', 'ax', 'ay', 'az', 'a1x', 'aw', 'dx', 'dy', 'dz', 'dv', 'QQY', 'sqa2']
 
